@@ -204,6 +204,10 @@ def recursive_program(rnd):
                                                      ['if', [[B('<=', V('n'), N(0)), [['return', N(0)]]]], None], ['return', C('pong', B('-', V('n'), N(1)))]]])
         prog.append(['func', 'pong', ['n'], False, [gen_prog.LOG('pong', V('n'), V('mark')), ['if', [[B('<=', V('n'), N(0)), [['return', N(1)]]]], None], ['return', C('ping', B('-', V('n'), N(1)))]]])
         prog.append(gen_prog.LOG('pp', C('ping', N(rnd.randint(1, 6)))))
+    # calls without arguments: each call gets its own (empty) argument list - the array arrayNew() returns belongs to that call alone, a
+    # parameter that was not passed is null
+    prog += [['assign', 'za', C('arrayNew')], ['expr', C('arrayPush', V('za'), N(rnd.randint(1, 9)), S('pushed'))], ['assign', 'zb', C('arrayNew')],
+             ['func', 'noargs', ['p'], False, [gen_prog.LOG('noargs', V('p')), ['return', V('p')]]], gen_prog.LOG('zero', V('za'), V('zb'), C('noargs'), C('arrayLength', C('arrayNew')))]
     prog.append(gen_prog.LOG('top', C('rec', N(rnd.randint(1, 7)), N(0))))
     prog.append(gen_prog.LOG('again', C('rec', N(rnd.randint(0, 3)), N(rnd.randint(0, 5))), V(loc), V('seen')))
     return prog
